@@ -1,12 +1,19 @@
 import TsVerif.C01.Stream
 /-!
-# C01 stage 2 (restricted) — a deterministic LR machine with subtree-level reuse
+# C01 stage 2 — a deterministic LR machine with extras and subtree-level reuse
 
 `Table` is a deterministic parse table (one action per (state, token) — no GLR, no error
-recovery): what `ts_language_table_entry` / `ts_language_next_state` give for conflict-free states.
-The machine works on a stack of (state, tree) pairs ABOVE a frame whose top state is `bottom`;
-a reduction that would pop below the frame stops the machine (`step = none`).  The whole parse is
-the case "frame = empty stack, bottom = start state".
+recovery): what `ts_language_table_entry` / `ts_language_next_state` give for conflict-free states
+(a `repetition` shift next to a reduce is skipped by `ts_parser__advance` and is not an action here).
+Token extras (`shift_extra`: comments, …) are pushed without changing the state; a reduction of `n`
+symbols pops `n` NON-extra entries together with the extras between them, builds the parent from
+them and pushes the extras that were on top again (`ts_stack_pop_count`,
+`ts_subtree_array_remove_trailing_extras`, `ts_parser__reduce`).  Non-terminal extras are not
+modelled.
+
+The machine works on a stack ABOVE a frame whose top state is `bottom`; a reduction that would pop
+below the frame stops the machine (`step = none`).  A whole parse is the case "frame = empty stack,
+bottom = start state".
 
 Subtree reuse (`ts_parser__advance` with a reused non-terminal look-ahead, after
 `ts_parser__breakdown_lookahead` has made sure that `ts_subtree_parse_state(tree) == state`) is the
@@ -18,6 +25,7 @@ open TsVerif.C01
 
 inductive Action where
   | shift (next : Nat)
+  | shiftExtra
   | reduce (sym : Nat) (count : Nat)
   | accept
   | error
@@ -32,12 +40,34 @@ inductive PTree where
   | node (sym : Nat) (kids : List PTree)
   deriving Repr
 
-abbrev Stack := List (Nat × PTree)
+structure Entry where
+  state : Nat
+  tree : PTree
+  extra : Bool
+
+abbrev Stack := List Entry
 
 /-- State on top of `st`, or the frame's top state. -/
 def top (bottom : Nat) : Stack → Nat
   | [] => bottom
-  | (s, _) :: _ => s
+  | e :: _ => e.state
+
+/-- `ts_stack_pop_count`: pop until `n` non-extra entries have been taken (extras between and
+above them included).  Result: the popped entries (top first) and the rest. -/
+def popN : Stack → Nat → Option (List Entry × Stack)
+  | st, 0 => some ([], st)
+  | [], _ + 1 => none
+  | e :: st, n + 1 =>
+    match popN st (if e.extra then n + 1 else n) with
+    | some (p, r) => some (e :: p, r)
+    | none => none
+
+/-- The configuration after reducing the popped entries `p` (top first) to `A` above `r`. -/
+def pushReduced (T : Table) (bottom : Nat) (A : Nat) (p : List Entry) (r : Stack) : Stack :=
+  let g := T.goto (top bottom r) A
+  let trailing := p.takeWhile (·.extra)
+  let kids := (p.dropWhile (·.extra)).reverse.map (·.tree)
+  trailing.map (fun e => { e with state := g }) ++ { state := g, tree := .node A kids, extra := false } :: r
 
 /-- One machine step on look-ahead `inp.head`. -/
 def step (T : Table) (bottom : Nat) (st : Stack) (inp : List Tok) : Option (Stack × List Tok) :=
@@ -45,11 +75,12 @@ def step (T : Table) (bottom : Nat) (st : Stack) (inp : List Tok) : Option (Stac
   | [] => none
   | x :: rest =>
     match T.action (top bottom st) x.sym with
-    | .shift s' => some ((s', .leaf x) :: st, rest)
+    | .shift s' => some ({ state := s', tree := .leaf x, extra := false } :: st, rest)
+    | .shiftExtra => some ({ state := top bottom st, tree := .leaf x, extra := true } :: st, rest)
     | .reduce A n =>
-      if n ≤ st.length then
-        some ((T.goto (top bottom (st.drop n)) A, .node A ((st.take n).reverse.map (·.2))) :: st.drop n, x :: rest)
-      else none
+      match popN st n with
+      | some (p, r) => some (pushReduced T bottom A p r, x :: rest)
+      | none => none
     | .accept => none
     | .error => none
 
@@ -71,6 +102,36 @@ def run (T : Table) (bottom : Nat) : Nat → Stack → List Tok → Stack × Lis
 
 /-- The reuse shortcut: an old subtree `t` for non-terminal `A` is pushed in one move. -/
 def reuseStep (T : Table) (bottom : Nat) (st : Stack) (A : Nat) (t : PTree) : Stack :=
-  (T.goto (top bottom st) A, t) :: st
+  { state := T.goto (top bottom st) A, tree := t, extra := false } :: st
+
+/-- `ReuseOK T s A t w u`: pushing the old subtree `t` for `A` in state `s` and then running on the
+following tokens `u` reaches the same configuration as running the machine from state `s` over the
+tokens `w` of `t` and then `u` — the certificate that `t` is what the machine builds from `w` in
+state `s` (with `u` = the extras and the first real token that follow). -/
+def ReuseOK (T : Table) (s A : Nat) (t : PTree) (w u : List Tok) : Prop :=
+  ∃ (k j : Nat) (c : Stack × List Tok),
+    steps T s k [] (w ++ u) = some c ∧
+    steps T s j [{ state := T.goto s A, tree := t, extra := false }] u = some c
+
+/-- An incremental run: ordinary machine steps interleaved with reuse shortcuts, each justified
+by a certificate.  `IncrRun T bottom lexed reused c d`: from configuration `c` to `d`, having
+taken `lexed` tokens from the lexer and skipped `reused` tokens below reused subtrees. -/
+inductive IncrRun (T : Table) (bottom : Nat) : Nat → Nat → Stack × List Tok → Stack × List Tok → Prop
+  | done (c : Stack × List Tok) : IncrRun T bottom 0 0 c c
+  | lexStep {st st' : Stack} {inp inp' : List Tok} {l r : Nat} {d : Stack × List Tok} :
+      step T bottom st inp = some (st', inp') → IncrRun T bottom l r (st', inp') d →
+      IncrRun T bottom (l + (inp.length - inp'.length)) r (st, inp) d
+  | reuse {st : Stack} {A : Nat} {t : PTree} {w u rest : List Tok} {l r : Nat} {d : Stack × List Tok} :
+      ReuseOK T (top bottom st) A t w u →
+      IncrRun T bottom l r (reuseStep T bottom st A t, u ++ rest) d →
+      IncrRun T bottom l (r + w.length) (st, w ++ u ++ rest) d
+
+/-- Number of tokens below a tree (what the lexer would have had to deliver). -/
+def PTree.tokens : PTree → Nat
+  | .leaf _ => 1
+  | .node _ kids => tokensL kids
+where tokensL : List PTree → Nat
+  | [] => 0
+  | k :: ks => PTree.tokens k + tokensL ks
 
 end TsVerif.C01.LR
